@@ -241,7 +241,7 @@ def _body_paths(cfg, header: int, limit: int = 400):
 WRAPPERS = {"to_chunksize", "normalize_chunks", "tuple", "list"}
 
 
-@rule("RECHUNK-PLAN-1", props=["C14"], floor=9)
+@rule("RECHUNK-PLAN-1", props=["C14"], floor=12)
 def rechunk_plan(ctx: Ctx) -> None:
     """the stage generator hands the planner the source chunking, the requested chunking, the
     shape, the item size and a budget derived from allowed_mem - reserved_mem over all buffer
@@ -325,6 +325,12 @@ def rechunk_plan(ctx: Ctx) -> None:
         """position in the stage triple if definition `s` unpacks the loop's stage variable"""
         if s.kind in ("unpack", "assign", "for") and s.value is not None:
             src = s.value
+            if s.kind != "for" and isinstance(src, (ast.Tuple, ast.List)) and len(s.index) == 1 and isinstance(s.index[0], int) and s.index[0] < len(src.elts):
+                # a, b, c = stage[0], stage[1], stage[2]
+                el = src.elts[s.index[0]]
+                if isinstance(el, ast.Subscript) and isinstance(el.value, ast.Name) and el.value.id in loopvars and isinstance(el.slice, ast.Constant):
+                    return el.slice.value
+                return None
             if s.kind == "for":
                 # for i, (r, m, w) in enumerate(stages): index path (1, k)
                 return s.index[-1] if s.index and isinstance(s.index[-1], int) and len(s.index) >= (2 if idx is not None else 1) and s.name != (idx[0] if isinstance(idx, tuple) else idx) else None
@@ -450,7 +456,7 @@ def rechunk_plan(ctx: Ctx) -> None:
             )
 
 
-@rule("RECHUNK-CHAIN-1", props=["C14"], floor=5)
+@rule("RECHUNK-CHAIN-1", props=["C14"], floor=12)
 def rechunk_chain(ctx: Ctx) -> None:
     """the two consumers of the stage generator — rechunk (executes the stages) and
     rechunk_plan (reports them) — call it with the same forwarded arguments, so the plan that
@@ -624,7 +630,7 @@ INFINITE_ITERS = {"itertools.count", "itertools.cycle", "itertools.repeat", "cou
 GROWERS = {"append", "extend", "insert", "add", "update", "appendleft"}
 
 
-@rule("RECHUNK-TERM-1", props=["C14"], floor=8)
+@rule("RECHUNK-TERM-1", props=["C14"], floor=10)
 def rechunk_term(ctx: Ctx) -> None:
     """termination of planning: every loop reachable from rechunk / rechunk_plan inside the
     planning modules iterates over a finite collection its body does not grow; a `while`
